@@ -84,6 +84,8 @@ def world_description(tier):
 def shards(tier, seed):
     out = [{"part": "pairs", "i": i, "n": 8} for i in range(8)]
     out += [{"part": "sound", "i": i, "n": 16} for i in range(16)]
+    out += [{"part": "stored", "i": i, "n": 4} for i in range(4)]
+    out += [{"part": "query", "i": i, "n": 8} for i in range(8)]
     if tier == "thorough":
         out += [{"part": "lattice", "i": i, "n": 32} for i in range(32)]
         out += [{"part": "soundlat", "i": i, "n": 16} for i in range(16)]
@@ -202,6 +204,29 @@ def run_shard(shard):
                             sig="bins-unsound-" + ("contained" if contained else "overlap"),
                         )
         res.sample({"range": list(my[0]) if my else None})
+    elif part == "stored":
+        for idx, span in enumerate(_boundary_spans()):
+            if idx % shard["n"] != shard["i"]:
+                continue
+            for kind in ("none", "id", "chunk"):
+                if kind == "chunk" and span[1] + 5 > MAXC + 10:
+                    continue
+                check_stored(res, span, kind)
+        res.sample({"stored": "bin attribute of transcript/gene/feature/collections/variants at boundary spans"})
+    elif part == "query":
+        spans = [sp for sp in _boundary_spans() if sp[1] - sp[0] >= 1]
+        groups = [spans[i : i + 3] for i in range(0, len(spans) - 2)]
+        for idx, grp in enumerate(groups):
+            if idx % shard["n"] != shard["i"]:
+                continue
+            lo = min(s for s, e in grp)
+            hi = max(e for s, e in grp)
+            pts = sorted({max(lo - 2, 1), lo, lo + 1, hi - 1, hi, hi + 2} | {s for s, e in grp} | {e for s, e in grp})
+            for qs in pts:
+                for qe in pts:
+                    if qs < qe and qs >= max(lo - 4, 0) and qe <= hi + 4:
+                        check_query(res, grp, (qs, qe))
+        res.sample({"query": "strict/relaxed range queries on collections at boundary coordinates vs brute force"})
     elif part == "lattice":
         lens = [0, 1, 2, (1 << 14), (1 << 17) - 1, (1 << 17), (1 << 17) + 1, (1 << 20) - 1, (1 << 20), (1 << 20) + 1, (1 << 23), (1 << 23) + 1, (1 << 26), (1 << 26) + 1, (1 << 29) - 1]
         k = 0
@@ -245,8 +270,103 @@ def run_shard(shard):
     return res
 
 
+# ---- bins stored on intervals, and the pre-filter inside real range queries ------------------------------------------------
+def _boundary_spans():
+    """(start, end) spans touching / straddling a boundary of every level, plus spans whose smallest bin is the root"""
+    out = []
+    for s in SHIFTS:
+        for m in (1, 2, 8):
+            B = m << s
+            if B >= MAXC:
+                B = MAXC - (1 << 17)
+            out += [(B - 3, B - 1), (B - 2, B), (B - 1, B + 2), (B, B + 3), (B + 1, B + 2)]
+    out += [((1 << 26) - 2, (1 << 26) + 2), (3 * (1 << 26) - 1, 3 * (1 << 26) + 1), (MAXC - 5, MAXC - 1), (MAXC - 2, MAXC + 3), (MAXC + 1, MAXC + 4)]
+    return sorted(set(out))
+
+
+def check_stored(res, span, kind):
+    """the bin attribute of every interval class is the bin of its GENOMIC span, also when built on a chunk"""
+    from vlib import lib
+    from inscripta.biocantor.gene.gene import GeneInterval
+    from inscripta.biocantor.gene.feature import FeatureIntervalCollection
+    from inscripta.biocantor.gene.variants import VariantInterval, VariantIntervalCollection
+    from inscripta.biocantor.io.parser import seq_chunk_to_parent
+    from inscripta.biocantor.parent import Parent
+
+    s, e = span
+    case = {"stored": kind, "span": [s, e]}
+    if kind == "chunk":
+        a = max(0, s - 7)
+        par = seq_chunk_to_parent("ACGTACGTACGTACGTACGTACGT"[: (e - a) + 5], "chrV", a, e + 5)
+    elif kind == "id":
+        par = Parent(id="chrV", sequence_type="chromosome")
+    else:
+        par = None
+    exp = kent(s, e)
+    closed = kent(s, e + 1) if e + 1 <= MAXC else 1
+    objs = {}
+    o = lib.outcome(lib.mk_tx, ((s, s + 1), (e - 1, e)) if e - s >= 3 else ((s, e),), "+", None, None, par)
+    if o[0] == "ok":
+        objs["transcript"] = o[1]
+        g = lib.outcome(lambda: GeneInterval([o[1]], parent_or_seq_chunk_parent=par))
+        if g[0] == "ok":
+            objs["gene"] = g[1]
+    f = lib.outcome(lib.mk_feat, ((s, e),), "-", par)
+    if f[0] == "ok":
+        objs["feature"] = f[1]
+        fc = lib.outcome(lambda: FeatureIntervalCollection([f[1]], parent_or_seq_chunk_parent=par))
+        if fc[0] == "ok":
+            objs["feature_collection"] = fc[1]
+    if kind != "chunk":
+        v = lib.outcome(lambda: VariantInterval(s, e, "A", "x", parent_or_seq_chunk_parent=par))
+        if v[0] == "ok":
+            objs["variant"] = v[1]
+    for name, obj in objs.items():
+        res.trans()
+        res.state(("stored", name, s, e, kind))
+        res.nontriv(("stored", name, s, e, kind))
+        b = getattr(obj, "bin", None)
+        res.note("stored", name)
+        if b not in (exp, closed):
+            res.deviation("bin", dict(cls=name, **case), b, exp, sig=f"stored-bin-{name}")
+
+
+def check_query(res, spans, qrange):
+    """strict range query on a sequence-less collection == brute force over the child spans (the pre-filter must be invisible)"""
+    from vlib import lib
+    from inscripta.biocantor.gene.gene import GeneInterval
+    from inscripta.biocantor.gene.collections import AnnotationCollection
+
+    genes = []
+    for i, (s, e) in enumerate(spans):
+        genes.append(GeneInterval([lib.mk_tx(((s, e),), "+", transcript_id=f"t{i}")], gene_id=f"g{i}"))
+    lo = min(s for s, e in spans) - 4
+    hi = max(e for s, e in spans) + 4
+    ac = AnnotationCollection(genes=genes, start=max(lo, 0), end=hi)
+    qs, qe = qrange
+    case = {"query": [list(x) for x in spans], "range": [qs, qe]}
+    res.state(("query", tuple(spans), qs, qe))
+    res.nontriv(("query", tuple(spans), qs, qe))
+    for cw in (True, False):
+        o = lib.outcome(lambda: sorted(g.gene_id for g in ac.query_by_position(qs, qe, completely_within=cw).genes))
+        res.trans()
+        if cw:
+            exp = sorted(f"g{i}" for i, (s, e) in enumerate(spans) if s >= qs and e <= qe)
+        else:
+            exp = sorted(f"g{i}" for i, (s, e) in enumerate(spans) if s < qe and e > qs)
+        res.note("query", "strict" if cw else "relaxed")
+        if o[0] != "ok" or o[1] != exp:
+            res.deviation("query_by_position", dict(completely_within=cw, **case), o[1], exp, sig="query-membership-" + ("strict" if cw else "relaxed"))
+
+
 def replay(case):
     res = ShardResult()
+    if "stored" in case:
+        check_stored(res, tuple(case["span"]), case["stored"])
+        return res.deviations
+    if "query" in case:
+        check_query(res, [tuple(x) for x in case["query"]], tuple(case["range"]))
+        return res.deviations
     if "range" in case:
         rs, re_ = case["range"]
         s, e = case["interval"]
